@@ -602,6 +602,48 @@ def run_grid_ownership(ctx):
     grid), and whatever the function handed to apply does with the array it receives."""
     from hydrodiy.gis import grid as gg
     rng = np.random.default_rng(ctx.seed + 23)
+    # grid-level functions: the grids handed to accumulate hold the same cell values
+    # afterwards, compared as exact integers (a count field of 64-bit integers beyond
+    # 2**53 does not survive a detour through doubles), and the same grid may be given
+    # twice (flow directions accumulated along themselves)
+    for it in range(12):
+        nr, nc = int(rng.integers(2, 6)), int(rng.integers(2, 6))
+        codes = rng.choice([1, 2, 4, 8, 16, 32, 64, 128, 0], size=(nr, nc))
+        for fdt, adt, big in ((np.int64, np.int64, 2 ** 53 + 1), (np.uint8, np.int64, 2 ** 60 + 7),
+                              (np.int32, np.uint64, 2 ** 63 + 2 ** 10 + 1),
+                              (np.int64, np.float64, 0), (np.int16, np.int32, 2 ** 31 - 1),
+                              (np.int64, None, 0)):
+            fd = gg.Grid("fd", nc, nr, dtype=fdt)
+            fd.data = codes.astype(fdt)
+            ctx.api("accumulate")
+            ctx.tag("ownership:accumulate-arguments")
+            ctx.evaluated()
+            case_ = {"kind": "ownership", "how": "accumulate", "flow_dtype": np.dtype(fdt).name,
+                     "field_dtype": "same-grid" if adt is None else np.dtype(adt).name,
+                     "codes": codes}
+            if adt is None:
+                ta = fd
+            else:
+                ta = gg.Grid("ta", nc, nr, dtype=adt)
+                fld = rng.integers(1, 50, size=(nr, nc)).astype(adt)
+                if big:
+                    fld[int(rng.integers(0, nr)), int(rng.integers(0, nc))] = big
+                ta.data = fld
+            b_fd = [int(x) for x in np.asarray(fd.data).ravel()]
+            b_ta = [x.item() for x in np.asarray(ta.data).ravel()]
+            try:
+                with warnings.catch_warnings():
+                    warnings.simplefilter("ignore")
+                    gg.accumulate(fd, ta, nprint=0) if it % 2 else gg.accumulate(fd, ta)
+            except Exception as e:
+                ctx.extra["accumulate-refused:" + type(e).__name__] += 1
+            a_fd = [int(x) for x in np.asarray(fd.data).ravel()]
+            a_ta = [x.item() for x in np.asarray(ta.data).ravel()]
+            ctx.check("ownership.accumulate-arguments",
+                      a_fd == b_fd and all(x == y for x, y in zip(a_ta, b_ta)),
+                      "gis.grid.accumulate|cell-values-of-a-grid-argument-changed", case_,
+                      lambda: {"field_before": b_ta[:8], "field_after": a_ta[:8],
+                               "flow_before": b_fd[:8], "flow_after": a_fd[:8]})
     for dt in (np.float64, np.float32, np.int64, np.int32, np.uint8):
         nr, nc = int(rng.integers(2, 7)), int(rng.integers(2, 7))
         vals = rng.integers(1, 100, size=(nr, nc)).astype(dt)
